@@ -859,7 +859,9 @@ func (c *Conn) advanceFrame() (int, error) {
 	if frameType == continuationFrame || frameType == TextMessage || frameType == BinaryMessage {
 
 		c.readLength += c.readRemaining
-		if c.readLimit > 0 && c.readLength > c.readLimit {
+		// readLength < 0: the accumulated message length overflowed int64; never
+		// let a wrapped counter pass the limit check.
+		if c.readLength < 0 || (c.readLimit > 0 && c.readLength > c.readLimit) {
 			c.WriteControl(CloseMessage, FormatCloseMessage(CloseMessageTooBig, ""), time.Now().Add(writeWait))
 			return noFrame, ErrReadLimit
 		}
